@@ -36,7 +36,7 @@ def fvimgHdrSize (i : SecInfo) : Nat := if i.size3 = 0xFFFFFF then 8 else 4
 
 /-- does the volume header announce an extended header (as `NewFirmwareVolume` decides)? -/
 def FvInfo.hasExt (i : FvInfo) : Bool :=
-  decide (i.extHeaderOffset ≠ 0 ∧ i.length ≥ 20 ∧ i.extHeaderOffset < i.length - 20)
+  decide (i.extHeaderOffset ≠ 0 ∧ i.length ≥ 20 ∧ i.extHeaderOffset ≤ i.length - 20)
 
 /-- the bytes of the volume the parser reads before it walks the files: the fixed header with the block
     map, and the 20 bytes of the extended header when there is one -/
